@@ -35,8 +35,12 @@ def check_retained(addrs, where):
 
 def oracle(case, line):
     """Property C14 evaluated on ONE implementation output line. Returns list of (klass, text)."""
-    if line.startswith(("CRASH", "ERR:", "NONDET", "MISSING", "SETUP-FAIL", "BADCASE")) or "ERR:" in line or "fault" in line.split(" | ")[0].split(" ")[0]:
-        return [("crash", "reply processing crashed, threw past the handler, read stale buffer bytes or hung: " + line[:200])]
+    if line.startswith("CRASH") and ("TIMEOUT" in line or "rc=3" in line):
+        return [("hang", "processing a reply blocked: the per-case watchdog (20 s) expired: " + line[:120])]
+    if line.startswith(("SETUP-FAIL", "BADCASE", "MISSING")):
+        return []      # the harness could not set the case up (not evidence about the property); model != impl reports it
+    if line.startswith(("CRASH", "ERR:", "NONDET")) or "ERR:" in line or "fault" in line.split(" | ")[0].split(" ")[0]:
+        return [("crash", "reply processing crashed, threw past the handler or read stale buffer bytes: " + line[:200])]
     toks = case.split()
     kind = toks[0]
     bad = []
@@ -131,6 +135,26 @@ def oracle(case, line):
                 bad.append(("dht-query-refused", "a well-formed query envelope was not dispatched: " + o[:80]))
             elif w == "e203" and not o.startswith("e "):
                 bad.append(("dht-bad-envelope-accepted", "a message without usable t / y / id was not answered with a protocol error: " + o[:80]))
+    elif kind == "DF":
+        own = toks[1]
+        matched = toks[5:8] == ["m", "m", "s"]
+        recs = [(t_[1:41], int(t_.split(":")[1])) for t_ in toks[8:] if t_.startswith("R")]
+        qs = [] if line == "-" else line.split(",")
+        fn = [q for q in qs if q.startswith("find_node@")]
+        if any("!not-our-id" in q or q.split("@")[0] not in ("find_node", "get_peers") for q in qs):
+            bad.append(("dht-odd-query", "after a find_node reply the server sent something that is not its own find_node / get_peers query: " + line[:100]))
+        if not matched and qs:
+            bad.append(("dht-unmatched-reply-used", "a reply with the wrong transaction id / node id / source address had an effect: " + line[:100]))
+        if len(fn) > 3:
+            bad.append(("dht-search-concurrency", "more than 3 find_node queries in flight for one search"))
+        allowed = {k for i_, k in recs if i_ != own}
+        for q in fn:
+            k = int(q.split("@")[1])
+            if k not in allowed:
+                if any(i_ == own and kk == k for i_, kk in recs):
+                    bad.append(("dht-own-id-contacted", "our own node id from a compact nodes string became a search contact (query sent to its address)"))
+                else:
+                    bad.append(("dht-invented-contact", "a find_node query went to an address that is in no record of the reply"))
     elif kind == "DV":
         d = bytes.fromhex(toks[1]) if toks[1] != "-" else b""
         w = G.ref_values(d)
@@ -303,11 +327,13 @@ def nontrivial(case, line):
     if k == "U":
         return any(t in line for t in ("connected:", "success:", "newpeers:", "fail:", "reset"))
     if k == "H":
-        return not line.startswith("fail:7061727365")
+        return not line.startswith("fail") or "ni=600 mi=300 c=0 i=0 d=0 sc=0 tid=-" not in line
     if k == "H2":
         return "newpeers:" in line or "success:" in line
     if k == "DH":
         return "Q" in line or "e " in line
+    if k == "DF":
+        return "@" in line
     if k == "DV":
         return line.startswith("OK ") and "values=~" not in line
     if k in ("PX", "PI"):
@@ -336,6 +362,22 @@ def run(rep, tier, seed, replay):
                        "the compact 'nodes' truncation is recomputed by the harness, the real parse_find_node_reply is not reached)"]))
     model = ltv.build_model("C14")
     impl = ltv.build_harness("c14", ["c14.cc"])
+    # constants as compiled vs. as translated into coq/C14/ParamsGen.v
+    try:
+        import re as _re
+        comp = dict(l.split("=") for l in ltv.run_lines(impl, [], args=["--params"])[0] if "=" in l)
+        gen_txt = open(ltv.COQ + "/C14/ParamsGen.v").read()
+        diff = []
+        for k, v in comp.items():
+            m = _re.search(r"Definition %s : \w+ := (\d+)" % k, gen_txt)
+            if m and m.group(1) != v:
+                diff.append("%s: compiled %s, translated %s" % (k, v, m.group(1)))
+        rep.cov["params_compiled"] = comp
+        if diff:
+            rep.violation("constants translated from the sources differ from the compiled code (gen/params_c14.py is stale): " + "; ".join(diff),
+                          theorem="params_ok_now", found_input=False)
+    except Exception as ex:      # the probe is a cross-check that may be absent
+        rep.cov["params_compiled"] = "unavailable: %s" % ex
     if replay:
         cases = [json.load(open(replay))["case"]]
         stats = {"replay": 1}
@@ -344,7 +386,7 @@ def run(rep, tier, seed, replay):
     mo = ltv.run_sharded(model, cases)
     # DH / DV / PI cases need the fully initialised library (DhtRouter + DhtServer, PeerInfo): second binary
     impl_full = ltv.build_harness("c14dht", ["c14_dht.cc"])
-    full = ("DH", "DV", "PI")
+    full = ("DH", "DV", "PI", "DF")
     io = [None] * len(cases)
     for binary, idx in ((impl, [i for i, c in enumerate(cases) if c.split(" ", 1)[0] not in full]),
                         (impl_full, [i for i, c in enumerate(cases) if c.split(" ", 1)[0] in full])):
